@@ -5,6 +5,14 @@ props = [json.loads(l) for l in open('/verif/properties.jsonl')]
 ids = [p["id"] for p in props]
 hooks_commits = [l.split()[0] for l in subprocess.run(["git", "-C", "/repo", "log", "--format=%h %s"], capture_output=True, text=True).stdout.splitlines() if " verif-hook:" in l or l.split(" ", 1)[1].startswith("verif-hook")]
 CLAIMED = {
+ "C02": dict(engine="codec", design="5/C02, 3.4",
+   text="Codec.tla transcribes the generated model codec (d.pop, the Unset guard, list construction, the union _parse_ try-chain with its guarded / unguarded / cast branches, the isinstance dispatch of union transform, field_dict) over 18 leaf kinds, ordered unions of 2-3 members, nested unions, required x nullable and 27 wire classes; TLC evaluates law K1 (every schema-valid value round-trips) for every descriptor - its refutations (date vs date-time vs string unions, strict model before open model, integer-array vs model-array) are design-level counterexamples. Every descriptor becomes a real model class and every wire class a real JSON value; the real from_dict/to_dict run in a sandbox; instance validity is screened independently by jsonschema; the observations are validated against the spec by CodecTrace.tla; 23 structured families (additionalProperties of every kind, nesting, recursion, allOf chains, presence patterns) with explicit instances.",
+   note="Exhaustive over the descriptor universe x wire classes (one representative value per class). File kinds are not JSON. Whole-number floats for integer kinds are not judged.",
+   technique="TLA+ transcription of the generated codec + TLC law evaluation per descriptor, replayed into real generated classes in a sandbox; trace validation of observations"),
+ "C10": dict(engine="codec", design="5/C10, 3.4",
+   text="Codec.tla law K4 (absent <-> UNSET <-> absent, null <-> None <-> null exactly for nullable descriptors, required+absent fails) evaluated by TLC for every descriptor and replayed on the real classes together with the signature laws (mandatory constructor argument <=> required and no default; declared type admits None <=> nullable; a present falsy value - 0, '', False, {}, [] - is neither absent nor null); 14 nullable spellings (3.0 nullable, 3.1 type list, null union member, null enum member) under both OpenAPI versions; an allOf family for 'mandatory iff some member requires it' wherever `required` is written; tri-state observations validated by CodecTrace.tla.",
+   note="Model-attribute positions are exhaustive over the descriptor universe; parameters and bodies ride on the endpoint checks (C03).",
+   technique="TLC evaluation of the tri-state law per descriptor + replay on real generated classes (signature, annotations, decode/encode)"),
  "C06": dict(engine="pipeline", design="5/C06, 3.5, 3.7",
    text="Pipeline.tla and Ops.tla model the parser's two retry fixpoints, the removal cascade, the request-body reference walk and per-operation assembly with every action total; TLC checks termination (liveness under fairness, no state constraint) and the ranking laws on all 46,656 three-schema documents and all operations of the universe; every enumerated case is replayed through the real parser under a wall-clock limit. Every JSON-pointer node of repository + concretised documents is replaced by 20 junk values / deleted / duplicated (fault model from the spec: opaque shapes) and the recorded hook traces must be behaviours of PipelineTrace.tla; 18 byte-level loader classes x JSON/YAML x path/URL run through the real CLI and are validated against FsHistory.tla (ExitLaw, RejectedWritesNothing) by FsTrace.tla.",
    note="Exhaustive inside the universes; node corruption is sampled on the large repository documents in the quick tier. A 4-30 s wall-clock limit stands for 'hangs'. Trusted: CPython signal timers, loopback HTTP server as URL source.",
